@@ -60,7 +60,11 @@ struct C02Vis {
 
 	template<class V> void final(V&& v, MV const& m) {
 		constexpr int D = rank_of<V>;
-		if(m.has_zero()) { if((v.end() - v.begin()) != v.size()) violation("C02:lead:empty:end-minus-begin", "end()-begin() != size() on an empty view"); return; }
+		if(m.has_zero()) { if((v.end() - v.begin()) != v.size()) violation("C02:lead:empty:end-minus-begin", "end()-begin() != size() on an empty view");
+			// the flat element range of a view without elements (empty leading OR empty inner extent): begin() and end() can be formed, delimit 0 positions and compare equal; it +- 0 is the identity
+			op("elements:empty"); { auto&& els = v.elements(); auto b = els.begin(); auto e = els.end(); if(!(b == e) || (e - b) != 0 || els.size() != 0) violation("C02:elements:empty:begin-end", "elements() of a view without elements does not have begin() == end(), end() - begin() == 0, size() == 0");
+				auto b2 = b; b2 += 0; if(!(b2 == b) || !((b + 0) == e)) violation("C02:elements:empty:plus-zero", "it + 0 is not the identity on the element range of a view without elements"); auto&& cels = std::as_const(v).elements(); if(!(cels.begin() == cels.end())) violation("C02:elements:empty:const-begin-end", "const elements() of a view without elements: begin() != end()"); count("empty-element-ranges"); }
+			return; }
 		L const s0 = m.size[0]; L const N = m.n();
 		auto const& cv = v;
 		// ---- leading iterators
